@@ -575,6 +575,8 @@ func exec(op string) (res string) {
 		return a
 	case "big", "bigx":
 		return execBig(w)
+	case "midrt":
+		return execMidrt(w[1], w[2], atoi(w[3]))
 	case "rxbig":
 		return execRxbig(w[1], byte(atoi(w[2])), w[3], atoi(w[4]))
 	case "nego":
@@ -1411,6 +1413,10 @@ func main() {
 			continue
 		}
 		out.Case(op, exec(op), cls, true)
+	}
+	// 6b''. body sizes between the shaped bodies and the 256 MiB frames (mid.go)
+	for _, oc := range genMid(r, tier) {
+		out.Case(oc[0], exec(oc[0]), oc[1], true)
 	}
 	// 6c. frames at the 256 MiB limit (the model answers through lengths only)
 	bigClasses := []string{"sender-too-big", "over"}
